@@ -41,8 +41,11 @@ Proof. cbn [run_flat]. destruct s; cbn; [exact I|lia]. Qed.
 
 Lemma r_len_prog l s : prog s (run_flat (r_len l) s).
 Proof.
-  destruct l; cbn [r_len]; try apply read32_prog; try apply read64_prog; try apply byte_prog;
-    (apply readfull_prog; [reflexivity|intros; apply ret_prog0]).
+  assert (F: forall n (k : list N -> Z * N), 0 < n -> prog s (run_flat (ReadFull n (fun bs => Ret (k bs))) s)).
+  { intros n k Hn. apply readfull_prog; [exact Hn|intros; apply ret_prog0]. }
+  destruct l; cbn [r_len];
+    [apply read32_prog|apply read64_prog|apply byte_prog|apply byte_prog
+    |apply F; reflexivity|apply F; reflexivity|apply F; reflexivity|apply F; reflexivity].
 Qed.
 
 Lemma pair_run {A B} (d : dec (A * N)) (f : A -> N -> dec B) s : robust d ->
